@@ -28,6 +28,8 @@ func init() {
 			"NOT decided: device-chosen delays and segmentations, and that the expected-response regular expressions match what the device prints.",
 		Assumptions: []string{"regexp matching is opaque", "ReadUntilAnyPrompt returns only after one of the given patterns matched (C01/C05 cover its loop)"},
 		Mutants: []Mutant{
+			{ID: "C12-events-filled-in-place", Desc: "the generic driver fills a default expected response into the caller's events", Rule: "C12/events-not-mutated",
+				Edits: []Edit{{File: "driver/generic/sendinteractive.go", Old: "\tfor i, event := range events {", New: "\tfor _, ev := range events {\n\t\tif ev.ChannelResponse == \"\" {\n\t\t\tev.ChannelResponse = \"#\"\n\t\t}\n\t}\n\n\tfor i, event := range events {"}}},
 			{ID: "C12-escalate-prompt-loosened", Desc: "ruijie escalation prompt matches any mention of a password", Rule: "C12/escalate-prompt-anchored",
 				Edits: []Edit{{File: "assets/platforms/ruijie_rgos.yaml", Old: "escalate-prompt: '(?im)^(?:enable\\s){0,1}password:\\s?$'", New: "escalate-prompt: '(?im)password:?'"}}},
 			{ID: "C12-channel-options-break", Desc: "channel.NewOperation stops at the first option that is not its own", Rule: "C12/op-options-applied",
@@ -68,6 +70,8 @@ func runC12(c *Ctx, r *Report) {
 	importFoundation(c, r, "C12", "read-until")
 	importFoundation(c, r, "C12", "transport-pipe")
 	importFoundation(c, r, "C12", "get-prompt")
+	r.Rule("C12/events-not-mutated", "no library function stores into a SendInteractiveEvent it did not build: the caller's dialogue description is only read", 1)
+	checkEventsNotMutated(c, r, "C12/events-not-mutated")
 	r.Rule("C12/onx-send-command", "a platform hook's send-command step is a plain (non-eager) send: it leaves no unread prompt behind that would pace the next dialogue", 2)
 	checkOnXSendCommand(c, r, "C12/onx-send-command")
 	r.Rule("C12/echo-error-surfaces", "in the send-input and interactive workers a failed write or echo read ends the exchange (the return / next input is not sent after it)", 6)
